@@ -165,6 +165,20 @@ CHECKS = {
          "checked for reachability and listing only.",
     technique="TLA+ spec + TLC; TLC-generated histories replayed into a real daemon; TLC trace validation (replica monitor)",
     ref="6/C16"),
+ "C06": dict(
+    category="model_checking",
+    text="Wire.tla defines, over a structural view of byte strings (constant header fields, declared sizes, bytes available, the annotation "
+         "area walked chunk by chunk, compression flag and inflatability, size limit), when a string is a well-formed message, how many bytes "
+         "the decoder may consume, and the sender-side size check; TLC checks that whatever the sender builds is well formed and that both "
+         "sides mean the same limit. Gen_Wire.tla enumerates all message shapes (payload classes around the compression threshold x annotation "
+         "shapes incl. empty / memoryview / bytearray x correlation id x compression x MAX_MESSAGE_SIZE huge / exact / one less), all "
+         "combinations of boundary values of type / flags / sequence / serializer, and 30 mutation classes x 6 base messages x 3 parameters; "
+         "the real SendingMessage and recv_stub (through a real SocketConnection over a fragmenting, byte-counting fake socket) run them; TLC "
+         "decides accept/reject, consumed bytes, field fidelity and re-encodability per case (Trace_Wire.tla).",
+    note="Trusted: the structural projection of byte strings and the field comparison are computed by the harness; payload contents are seeded "
+         "witnesses of their class. Caller-supplied compression / correlation flag bits are outside the statement.",
+    technique="TLA+ spec + TLC; TLC-enumerated message shapes and mutations run through the real codec; TLC trace validation (monitor)",
+    ref="6/C06"),
 }
 NOT_YET = {}
 ALL = ["C%02d" % i for i in range(1, 21)]
